@@ -236,6 +236,16 @@ class Executor(ExprMixin, StmtMixin, CallMixin, ContractMixin):
             if is_init:
                 st.init_assigned = set()
                 self.frame.append((st.env['self'].t, None))
+                # a new object's attribute dictionary is empty
+                cls_ = st.env['self'].ty.cls
+                dc_, fty_ = self.classes.field(cls_, '_dict')
+                if dc_ is not None:
+                    from .values import empty_map
+                    arr_ = self.heap_array(st, (dc_, '_dict'), fty_)
+                    st.heap[(dc_, '_dict')] = z3.Store(arr_, st.env['self'].t, empty_map(fty_))
+                    st.init_assigned.add('_dict')
+                    self.pre_state = st.copy()
+                    self.old_state = self.pre_state
             if canary:
                 ends = self.exec_block(st, fs.node.body)
                 self.finish_canary(rep, ends)
